@@ -14,6 +14,8 @@ THEOREMS = [
     'Dp.mem_insertSorted', 'Dp.mem_sortM', 'Dp.options_allow_exact', 'Dp.allow405_exact',
     'Dp.suffix_isolation', 'Dp.unknown_method_400', 'Dp.kwargs_are_fields_or_groups',
     'Dp.websocket_meta_is_400', 'Dp.dispatchHttp_eq',
+    'Dp.groupdict_keys', 'Dp.sink_kwargs_exact', 'Dp.sink_kwargs_nonparticipating', 'Dp.non_sink_kwargs_empty',
+    'Dp.init_default', 'Dp.sink_static_order_init',
 ]
 STATEMENTS = {
     'Dp.route_masks': 'whenever the router returns a route for the path, _get_responder answers from that route\'s method map alone, whatever sinks and static routes are registered and whatever they match',
@@ -29,25 +31,39 @@ STATEMENTS = {
     'Dp.kwargs_are_fields_or_groups': 'params = template fields for a routed request, = groupdict() of exactly the chosen sink otherwise, = {} for a static route and for 404',
     'Dp.websocket_meta_is_400': 'an HTTP request whose method is WEBSOCKET is answered 400 whatever is registered',
     'Dp.dispatchHttp_eq': 'for every other method the HTTP entry point dispatches exactly like _get_responder',
+    'Dp.groupdict_keys': 'the keys of Match.groupdict() are the named groups of the pattern (groupindex), whichever groups took part in the match',
+    'Dp.sink_kwargs_exact': 'when dispatch falls through to a sink its kwargs are groupdict() of that sink\'s match: one key per named group of the prefix pattern, each with the text the group matched, or None when it did not take part',
+    'Dp.sink_kwargs_nonparticipating': 'if no group of the chosen sink\'s pattern took part in the match (Match.lastindex is None) the sink still receives every named group as a keyword argument, all None',
+    'Dp.non_sink_kwargs_empty': 'with match objects as the table: a static route and the 404 responder get no kwargs, a routed request gets the template fields',
+    'Dp.init_default': 'an app constructed without sink_before_static_route is the app constructed with True',
+    'Dp.sink_static_order_init': 'sink_static_order for the app the constructor returns (falcon.App / falcon.API / falcon.asgi.App), whether the option was given or left out',
 }
 TRUSTED = [
-    're.Pattern.match / groupdict and StaticRoute.match enter the model as a table read off the real matchers (the oracle recomputes static matching from the documented prefix rule)',
+    're.Pattern.match (whether it matches, Pattern.groupindex, Match.group(i) of every group) and StaticRoute.match enter the model as a table read off the real matchers; groupdict() is computed by the model; the oracle recomputes static matching from the documented prefix rule',
+    'Python argument binding (positional / keyword) of the app constructors is not modelled: the model receives the value the test author passed for sink_before_static_route, or "default"',
     'the router\'s answer for the path enters the model as an input (C01 verifies the router); the oracle uses its own template matcher',
     'sortedness of the Allow lists is carried by the correspondence (lists are compared in order), not by a theorem',
     'what a static route serves once chosen (C16)',
 ]
 ASSUMPTIONS = [
     'FALCON_CUSTOM_HTTP_METHODS is unset (COMBINED_METHODS = 9 HTTP + 13 WebDAV + WEBSOCKET; the real tuple is passed to the model on every line)',
-    'suffix is None or a non-empty identifier; default router (CompiledRouter), no middleware, default error handlers and serializer',
+    'suffix is None or a non-empty identifier; the router is a CompiledRouter (the default one or an instance passed as router=); middleware, if any, is passive (its hooks change nothing); default error handlers and serializer',
+    'sink_before_static_route has no public attribute or setter after construction (App.__slots__ holds only the private _sink_before_static_route), so the constructor is the only public way to configure it',
     'the 405 close code of a WebSocket handshake carries no Allow list; for WebSocket requests the Allow list is observed on the responder returned by App._get_responder only',
 ]
-RULE = ('random apps (WSGI falcon.App and ASGI falcon.asgi.App): 0..8 registrations in random order, in one or two phases with requests after each phase - '
+RULE = ('random apps constructed through every public entry point (falcon.App, the deprecated alias falcon.API, falcon.asgi.App, and a user subclass of each), every '
+        'App.__init__ option (media_type, request_type, response_type, middleware, router, independent_middleware, cors_enable, sink_before_static_route) independently left out, '
+        'passed by keyword or passed positionally (0..8 positional arguments), with the documented default or a dispatch-neutral alternative value (passive middleware, '
+        'an explicit CompiledRouter() - on WSGI routes are then sometimes added on that router directly -, cors_enable=True, Request/Response subclasses); '
+        'sink_before_static_route omitted / True / False; 0..8 registrations in random order, in one or two phases with requests after each phase - '
         'routes over 7 templates bound to resources with random subsets of the 22 methods + WEBSOCKET as on_<m>, on_<m>_alt, on_<m>_x (some attributes non-callable, '
-        'some resources shared by two routes with different suffix=), 7 overlapping sink regexes with named groups (str or compiled), 6 static routes '
+        'some resources shared by two routes with different suffix=), 7 overlapping sink regexes with mandatory named groups plus 12 whose named groups need not take part in a match '
+        '(optional groups, groups in one branch of an alternation, nested optional groups, a repeated group, an empty-text group, unnamed groups beside named ones, an inline flag), '
+        'registered as str, compiled pattern, by keyword or with the default prefix; the kwargs a sink receives are compared key-by-key (None is distinguished from the empty string); 9 static routes '
         '(shared prefixes, with/without fallback_filename), both sink_before_static_route values; 6..10 requests per app: paths biased to registered templates, '
         'methods biased to implemented ones plus WEBSOCKET and an unknown method; ASGI additionally WebSocket handshakes. '
         'Each request is observed twice: on the responder returned by App._get_responder (invoked on a fresh request/response) and through the full WSGI/ASGI call. '
-        'non-trivial = the app has at least one registration; distinct = distinct (stack, registration history, request)')
+        'non-trivial = the app has at least one registration; distinct = distinct (stack, constructor call, registration history, request)')
 PARTIAL = ''
 JOBS = {'quick': 4, 'thorough': 16}
 
@@ -59,18 +75,40 @@ META = ['WEBSOCKET']
 ALLM = KNOWN + META
 TEMPLATES = ['/a', '/a/b', '/items/{id}', '/items/{id}/sub', '/s/x', '/st/f.txt', '/{top}']
 PATHS = ['/a', '/a/b', '/items/7', '/items/7/sub', '/s/x', '/s/y/z', '/st/f.txt', '/st/nope', '/zzz', '/q/r', '/st', '/s',
-         '/st2/f.txt', '/']
+         '/st2/f.txt', '/', '/q', '/7', '/7/x', '/en/about', '/about', '/sx', '/zz', '/S/x']
 SINKS = [r'/s', r'/s/(?P<rest>.*)', r'/(?P<first>[^/]+)/(?P<second>.*)', r'/st', r'/q', r'/', r'/(?P<one>[a-z]+)$']
+# named groups that need not take part in a match: kwargs must still be exactly Match.groupdict() (absent groups = None)
+SINKS_OPT = [
+    r'/s(?:/(?P<rest>[a-z]+))?',                                    # one optional group ('/s', '/st...' match without it)
+    r'/(?:st/(?P<file>[a-z.]+)|q|s)',                               # the only group sits in one branch of an alternation
+    r'/(?P<lang>[a-z]{2}/)?',                                       # catch-all whose only group is optional
+    r'/(?P<outer>s(?P<inner>t)?)?',                                 # optional group nested in an optional group
+    r'/(?:(?P<num>[0-9]+)|(?P<word>[a-z]+))?',                      # two alternated groups, at most one participates, maybe none
+    r'/(s|q)(?:/(?P<rest>[^/]*))?',                                 # an UNNAMED group participates, the named one need not
+    r'/(?P<first>[^/]+)(?:/(?P<second>[^/]+))?(?:/(?P<third>.*))?',  # one mandatory + two optional groups
+    r'/(?P<e>)',                                                    # participates with the empty string ('' is not None)
+    r'/(st|s)/',                                                    # unnamed groups only: kwargs {}
+    r'/(?P<z>z)*',                                                  # repeated group, zero repetitions allowed
+    r'/(?:a/(?P<leaf>b)|(?P<top>a))?',                              # alternation of named groups inside an optional group
+    r'(?i)/s(?P<tail>/x)?',                                         # inline flag + optional group
+]
+# public ways to construct an app (label -> how run() resolves it); 'sub:' = a user subclass that adds nothing
+ENTRY = {'wsgi': ['falcon.App', 'falcon.API', 'sub:falcon.App', 'sub:falcon.API'],
+         'asgi': ['falcon.asgi.App', 'sub:falcon.asgi.App']}
+# App.__init__ options in positional order
+OPTS = ['media_type', 'request_type', 'response_type', 'middleware', 'router', 'independent_middleware', 'cors_enable',
+        'sink_before_static_route']
 # (prefix, directory key, fallback_filename)
 STATICS = [('/st/', 'a', None), ('/st', 'b', None), ('/st2/', 'b', None), ('/s/', 'a', None), ('/s', 'b', 'f.txt'),
            ('/st', 'a', 'f.txt'), ('/st/', 'a', 'f.txt'), ('/s/', 'b', 'f.txt'), ('/st2/', 'b', 'f.txt')]   # fallback with and without the trailing slash in the registered prefix
 
 
 def kwstr(kw):
-    items = sorted((str(k), '' if v is None else str(v)) for k, v in dict(kw).items())
+    """`k:v` for a text value (possibly empty), bare `k` for None; sorted by key."""
+    items = sorted((str(k), None if v is None else str(v)) for k, v in dict(kw).items())
     for k, v in items:
-        assert not (set(k + v) & set(' ;:|>,')), (k, v)
-    return ';'.join(f'{k}:{v}' for k, v in items) or '-'
+        assert not (set(k + (v or '')) & set(' ;:|>,@')) and k != '-', (k, v)
+    return ';'.join(k if v is None else f'{k}:{v}' for k, v in items) or '-'
 
 
 def tmpl_match(tmpl, path):
@@ -95,8 +133,9 @@ def tmpl_match(tmpl, path):
 class Reg:
     """The registration history of one generated app, as the test author knows it (no falcon state)."""
 
-    def __init__(self, sbs):
-        self.sbs = sbs
+    def __init__(self, sbs, ctor=None):
+        self.sbs = sbs         # the configured order: the value given to the constructor, True (documented default) if none was given
+        self.ctor = ctor or {} # how the app object was constructed: entry point, which options positionally / by keyword
         self.resources = {}    # res id -> {'attrs': set((method, suffix)), 'noncallable': set((method, suffix))}
         self.routes = []       # (template, res id, suffix)
         self.sinks = []        # (pattern string, k) in registration order
@@ -104,11 +143,11 @@ class Reg:
         self.ops = []          # 's<k>' / 't<k>' in registration order
 
     def sig(self):
-        return (self.sbs, tuple(sorted((r, tuple(sorted(map(str, d['attrs'])))) for r, d in self.resources.items())),
+        return (self.sbs, self.ctor.get('entry'), self.ctor.get('sbs_arg'), self.ctor.get('call'), tuple(sorted((r, tuple(sorted(map(str, d['attrs'])))) for r, d in self.resources.items())),
                 tuple(self.routes), tuple(self.sinks), tuple(self.statics))
 
     def describe(self):
-        return {'sink_before_static_route': self.sbs,
+        return {'sink_before_static_route': self.sbs, 'constructed_by': self.ctor.get('call'),
                 'resources': {r: sorted('on_' + m.lower() + ('_' + s if s else '') for m, s in d['attrs']) for r, d in self.resources.items()},
                 'noncallable': {r: sorted('on_' + m.lower() + ('_' + s if s else '') for m, s in d['noncallable']) for r, d in self.resources.items() if d['noncallable']},
                 'routes': list(self.routes), 'sinks': list(self.sinks), 'statics': list(self.statics), 'order_of_adds': list(self.ops)}
@@ -145,9 +184,11 @@ class Reg:
         stt = [('static', px, fb, k) for px, d, fb, k in reversed(self.statics)]
         for o in (sk + stt if self.sbs else stt + sk):
             if o[0] == 'sink':
-                mt = re.compile(o[1]).match(path)
+                pat = re.compile(o[1])
+                mt = pat.match(path)
                 if mt:
-                    return {'k': 'sink', 'id': o[2], 'kw': mt.groupdict()}
+                    # "sink named groups arrive as the responder's keyword arguments": one per named group of the pattern
+                    return {'k': 'sink', 'id': o[2], 'kw': {name: mt.group(name) for name in pat.groupindex}}
             elif self.static_matches(o[1], o[2], path):
                 return {'k': 'static', 'id': o[3], 'kw': {}}
         return {'k': '404'}
@@ -168,6 +209,8 @@ def judge(exp, obs, level):
     elif k == 'sink':
         if obs['id'] != exp['id']:
             return f'{level}: sink {obs["id"]} ran, expected sink {exp["id"]}'
+        if set(obs['kw']) != set(exp['kw']):
+            return f'{level}: sink kwargs {obs["kw"]}: keys differ from the named groups of the sink prefix {exp["kw"]}'
         if obs['kw'] != exp['kw']:
             return f'{level}: sink kwargs {obs["kw"]} != named groups {exp["kw"]}'
     elif k == 'static':
@@ -245,6 +288,7 @@ def _stack(ctx, root, asgi):
     import asyncio
     import os
     import re
+    import warnings
     from runner import alarm, Hang
     import falcon
     import falcon.asgi
@@ -268,8 +312,7 @@ def _stack(ctx, root, asgi):
                 LOG.append({'k': 'static', 'id': self.k, 'kw': dict(kw)})
                 await super().__call__(req, resp, **kw)
 
-        class TApp(falcon.asgi.App):
-            _STATIC_ROUTE_TYPE = RecStatic
+        BASE = falcon.asgi.App
     else:
         class RecStatic(StaticRoute):
             def __init__(self, *a, **k):
@@ -280,8 +323,108 @@ def _stack(ctx, root, asgi):
                 LOG.append({'k': 'static', 'id': self.k, 'kw': dict(kw)})
                 super().__call__(req, resp, **kw)
 
-        class TApp(falcon.App):
-            _STATIC_ROUTE_TYPE = RecStatic
+        BASE = falcon.App
+    saved_static_type = BASE.__dict__['_STATIC_ROUTE_TYPE']
+    BASE._STATIC_ROUTE_TYPE = RecStatic      # (falcon.API inherits it from falcon.App)
+
+    class SubApp(BASE):
+        """a user subclass that adds nothing"""
+
+    class SubAPI(falcon.API):
+        """a user subclass of the deprecated alias"""
+
+    ENTRY_CLS = {'falcon.App': falcon.App, 'falcon.API': falcon.API, 'sub:falcon.App': SubApp, 'sub:falcon.API': SubAPI,
+                 'falcon.asgi.App': falcon.asgi.App, 'sub:falcon.asgi.App': SubApp}
+    ReqBase = falcon.asgi.Request if asgi else falcon.Request
+    RespBase = falcon.asgi.Response if asgi else falcon.Response
+
+    class SubReq(ReqBase):
+        pass
+
+    class SubResp(RespBase):
+        pass
+
+    if asgi:
+        class Passive:
+            """middleware that touches nothing (dispatch must not depend on its presence)"""
+            async def process_request(self, req, resp):
+                pass
+
+            async def process_resource(self, req, resp, resource, params):
+                pass
+
+            async def process_response(self, req, resp, resource, req_succeeded):
+                pass
+    else:
+        class Passive:
+            """middleware that touches nothing (dispatch must not depend on its presence)"""
+            def process_request(self, req, resp):
+                pass
+
+            def process_resource(self, req, resp, resource, params):
+                pass
+
+            def process_response(self, req, resp, resource, req_succeeded):
+                pass
+
+    class PassiveResp:
+        if asgi:
+            async def process_response(self, req, resp, resource, req_succeeded):
+                pass
+        else:
+            def process_response(self, req, resp, resource, req_succeeded):
+                pass
+
+    def construct():
+        """One app through a public entry point; every App.__init__ option left out, given positionally or by keyword.
+        -> (app, sbs the author configured, description, explicit router or None)"""
+        entry = rnd.choice(ENTRY[stack])
+        sbs_arg = rnd.choice(['default', True, True, False, False, False])
+        router = falcon.routing.CompiledRouter() if rnd.random() < 0.35 else None
+        vals = {
+            'media_type': (rnd.choice([falcon.DEFAULT_MEDIA_TYPE, falcon.MEDIA_XML]), None),
+            'request_type': rnd.choice([(None, 'None'), (ReqBase, 'Request'), (SubReq, 'subclass(Request)')]),
+            'response_type': rnd.choice([(None, 'None'), (RespBase, 'Response'), (SubResp, 'subclass(Response)')]),
+            'middleware': rnd.choice([(None, 'None'), (None, 'None'), ([], '[]'), (Passive(), 'passive'), ([Passive(), PassiveResp()], '[passive,passive]')]),
+            'router': (router, 'CompiledRouter()' if router is not None else 'None'),
+            'independent_middleware': (rnd.random() < 0.6, None),
+            'cors_enable': (rnd.random() < 0.3, None),
+            'sink_before_static_route': (True if sbs_arg == 'default' else sbs_arg, None),
+        }
+        npos = rnd.choice([0, 0, 0, 0, 1, 3, 5, 7, 8, 8])
+        if sbs_arg == 'default' and npos == 8:
+            npos = 7
+        args, kwargs, shown = [], {}, []
+        for i, name in enumerate(OPTS):
+            v, label = vals[name]
+            label = repr(v) if label is None else label
+            if i < npos:
+                args.append(v)
+                shown.append(label)
+            elif name == 'sink_before_static_route':
+                if sbs_arg != 'default':
+                    kwargs[name] = v
+            elif (name == 'router' and router is not None) or rnd.random() < 0.25:
+                kwargs[name] = v
+        items = list(kwargs.items())
+        rnd.shuffle(items)
+        kwargs = dict(items)
+        shown += [f'{k}={repr(vals[k][0]) if vals[k][1] is None else vals[k][1]}' for k in kwargs]
+        how = 'omitted' if sbs_arg == 'default' else ('positional' if npos == 8 else 'keyword')
+        with warnings.catch_warnings():
+            warnings.simplefilter('ignore')          # falcon.API is deprecated (and still public)
+            app = ENTRY_CLS[entry](*args, **kwargs)
+        ctor = {'entry': entry, 'sbs_arg': 'default' if sbs_arg == 'default' else str(int(sbs_arg)), 'how': how,
+                'call': f'{entry}({", ".join(shown)})'}
+        ctx.count(f'app_{entry}_sink_before_static_route={"omitted" if sbs_arg == "default" else sbs_arg}{"" if sbs_arg == "default" else "_" + how}')
+        for name in OPTS[:-1]:
+            if name in kwargs or OPTS.index(name) < npos:
+                ctx.count(f'app_option_{name}_given')
+        if vals['middleware'][1] not in ('None', '[]') and ('middleware' in kwargs or npos > 3):
+            ctx.count('app_with_passive_middleware')
+        if vals['cors_enable'][0] and ('cors_enable' in kwargs or npos > 6):
+            ctx.count('app_with_cors_enable')
+        return app, vals['sink_before_static_route'][0], ctor, (router if ('router' in kwargs or npos > 4) else None)
 
     def mk_responder(rid, method, sfx):
         if asgi:
@@ -346,11 +489,16 @@ def _stack(ctx, root, asgi):
                 objs['res'][rid] = res
             sfxs = sorted({s for (_, s) in reg.resources[rid]['attrs'] if s}) or ['alt']
             suffix = rnd.choice(sfxs) if rnd.random() < 0.5 else None
+            # a router handed to the constructor is the app's router: (WSGI) a route added on it directly is a route of the app
+            target = app
+            if objs['router'] is not None and not asgi and rnd.random() < 0.4:
+                target = objs['router']
+                ctx.count('route_added_on_the_explicit_router')
             try:
                 if suffix is None:
-                    app.add_route(tm, objs['res'][rid])
+                    target.add_route(tm, objs['res'][rid])
                 else:
-                    app.add_route(tm, objs['res'][rid], suffix=suffix)
+                    target.add_route(tm, objs['res'][rid], suffix=suffix)
             except falcon.routing.util.SuffixedMethodNotFoundError:
                 # documented: a suffix without any responder is rejected; the statement then has no route
                 ok = not any(s == suffix for (_, s) in reg.resources[rid]['attrs'])
@@ -361,8 +509,17 @@ def _stack(ctx, root, asgi):
             reg.routes.append((tm, rid, suffix))
             objs['tmpl'][tm] = (rid, suffix)
         elif kind == 'sink':
-            px = rnd.choice(SINKS)
-            app.add_sink(mk_sink(k), re.compile(px) if rnd.random() < 0.3 else px)
+            px = rnd.choice(SINKS_OPT) if rnd.random() < 0.45 else rnd.choice(SINKS)
+            how = rnd.random()
+            if px == '/' and how < 0.5:
+                app.add_sink(mk_sink(k))                              # the documented default prefix
+                ctx.count('add_sink_default_prefix')
+            elif how < 0.3:
+                app.add_sink(mk_sink(k), re.compile(px))
+            elif how < 0.45:
+                app.add_sink(prefix=px, sink=mk_sink(k))
+            else:
+                app.add_sink(mk_sink(k), px)
             reg.sinks.append((px, k))
             reg.ops.append(f's{k}')
             objs['sinkre'][k] = re.compile(px)
@@ -378,11 +535,18 @@ def _stack(ctx, root, asgi):
     def model_line(kind, reg, objs, route_info, method, path):
         hits = [f's{k}' for px, k in reg.sinks if objs['sinkre'][k].match(path)] + \
                [f't{k}' for px, dk, fb, k in reg.statics if objs['static'][k].match(path)]
-        groups = []
+        gi, grp = [], []
         for px, k in reg.sinks:
-            mt = objs['sinkre'][k].match(path)
-            if mt and mt.groupdict():
-                groups.append(f's{k}>' + kwstr(mt.groupdict()))
+            pat = objs['sinkre'][k]
+            if pat.groupindex:
+                gi.append(f's{k}>' + ';'.join(f'{n}@{i}' for n, i in pat.groupindex.items()))
+            mt = pat.match(path)
+            if mt:
+                took_part = [(i, mt.group(i)) for i in range(1, pat.groups + 1) if mt.group(i) is not None]
+                for i, v in took_part:
+                    assert not (set(v) & set(' ;:|>,@')), v
+                if took_part:
+                    grp.append(f's{k}>' + ';'.join(f'{i}:{v}' for i, v in took_part))
         if route_info is None:
             rt, attrs, sfx, fields = '-', '-', '-', '-'
         else:
@@ -391,8 +555,8 @@ def _stack(ctx, root, asgi):
             attrs = ','.join(sorted(m + ('~' + s if s else '') for m, s in reg.resources[rid]['attrs'])) or '-'
             sfx = suffix or '-'
             fields = kwstr(params)
-        return (f"{kind} sbs={1 if reg.sbs else 0} ops={','.join(reg.ops) or '-'} route={rt} attrs={attrs} suffix={sfx} "
-                f"combined={','.join(COMBINED)} hits={','.join(hits) or '-'} method={method} fields={fields} groups={'|'.join(groups) or '-'}")
+        return (f"{kind} sbs={reg.ctor['sbs_arg']} ops={','.join(reg.ops) or '-'} route={rt} attrs={attrs} suffix={sfx} "
+                f"combined={','.join(COMBINED)} hits={','.join(hits) or '-'} method={method} fields={fields} gi={'|'.join(gi) or '-'} grp={'|'.join(grp) or '-'}")
 
     class DummyWS:
         """Stands in for falcon.asgi.WebSocket when a responder returned by _get_responder is invoked directly."""
@@ -501,10 +665,9 @@ def _stack(ctx, root, asgi):
 
     try:
         for ci in range(ctx.n(5000, 60000)):
-            sbs = rnd.random() < 0.6
-            app = TApp(sink_before_static_route=sbs)
-            reg = Reg(sbs)
-            objs = {'res': {}, 'tmpl': {}, 'sinkre': {}, 'static': {}}
+            app, sbs, ctor, explicit_router = construct()
+            reg = Reg(sbs, ctor)
+            objs = {'res': {}, 'tmpl': {}, 'sinkre': {}, 'static': {}, 'router': explicit_router}
             del CREATED[:]
             counter = [0]
             phases = [rnd.randint(0, 6), rnd.choice([0, 0, 1, 2, 3])]
@@ -514,7 +677,7 @@ def _stack(ctx, root, asgi):
                 for _ in range(nreg):
                     register(app, reg, objs, counter)
                 for _ in range(rnd.randint(3, 5) if ph else rnd.randint(4, 6)):
-                    path = rnd.choice(PATHS + ['/st/f.txt', '/s/x', '/s/y/z', '/st/nope', '/st2/f.txt', '/s', '/st', '/st2', '/st2/'])
+                    path = rnd.choice(PATHS + ['/st/f.txt', '/s/x', '/s/y/z', '/st/nope', '/st2/f.txt', '/s', '/st', '/st2', '/st2/', '/s', '/q', '/'])
                     if reg.routes and rnd.random() < 0.55:
                         path = rnd.choice(reg.routes)[0].replace('{id}', rnd.choice(['7', 'x.y'])).replace('{top}', rnd.choice(['zz', 'a', 's', 'st']))
                     method = rnd.choice(ALLM + ['GET', 'GET', 'GET', 'OPTIONS', 'OPTIONS', 'OPTIONS', 'OPTIONS', 'HEAD', 'FOO', 'WEBSOCKET'])
@@ -562,12 +725,30 @@ def _stack(ctx, root, asgi):
                     ctx.seen((stack, reg.sig(), kind, method, path), bool(reg.routes or reg.sinks or reg.statics))
                     ctx.count(f'{stack}_{kind}_{okind}')
                     ctx.count(f'{stack}_expected_{exp_full["k"]}')
+                    if exp_full['k'] == 'sink':
+                        pat = objs['sinkre'][exp_full['id']]
+                        mt = pat.match(path)
+                        vals_ = list(exp_full['kw'].values())
+                        if not pat.groupindex:
+                            shape = 'pattern_without_named_groups'
+                        elif all(v is not None for v in vals_):
+                            shape = 'every_named_group_took_part'
+                        elif any(v is not None for v in vals_):
+                            shape = 'some_named_groups_are_None'
+                        elif mt.lastindex is None:
+                            shape = 'all_named_groups_None_and_no_group_took_part'
+                        else:
+                            shape = 'all_named_groups_None_but_an_unnamed_group_took_part'
+                        ctx.count(f'{stack}_sink_kwargs_{shape}')
+                        if '' in vals_:
+                            ctx.count(f'{stack}_sink_kwargs_with_an_empty_string_value')
                     if exp_full['k'] in ('sink', 'static'):
                         nm = sum(1 for px, k in reg.sinks if re.compile(px).match(path)) + sum(1 for px, dk, fb, k in reg.statics if reg.static_matches(px, fb, path))
                         ctx.count(f'{stack}_fallback_with_{min(nm, 3)}{"+" if nm >= 3 else ""}_matching_entries')
                         if any(re.compile(px).match(path) for px, k in reg.sinks) and any(reg.static_matches(px, fb, path) for px, dk, fb, k in reg.statics):
                             ctx.count(f'{stack}_fallback_sink_and_static_both_match_sbs={int(reg.sbs)}')
     finally:
+        BASE._STATIC_ROUTE_TYPE = saved_static_type
         if loop is not None:
             loop.close()
     sess.finish()
@@ -577,8 +758,9 @@ LEVEL_TEXT = ('Machine-checked proofs (Lean 4) about a model of add_route (map_h
               '_update_sink_and_static_routes and App._get_responder / the meta-method guard of App.__call__: a route masks every sink and static route; '
               'without a route the first matching entry of the configured order is chosen and 404 iff none matches; after any registration history the order is '
               'sinks by recency then static routes by recency (or swapped); the Allow sets of the automatic OPTIONS and 405 responders are exact for every set of '
-              'implemented methods (WEBSOCKET never leaks); suffixed routes reach only suffixed responders; kwargs are the template fields / the chosen sink\'s named groups; '
-              'WEBSOCKET over HTTP is 400. The model is tied to falcon on every run: generated WSGI and ASGI apps, each request observed on the responder returned by '
+              'implemented methods (WEBSOCKET never leaks); suffixed routes reach only suffixed responders; kwargs are the template fields / groupdict() of the chosen sink\'s match - every named group of its prefix pattern, None for groups that did not take part, '
+              'also when no group took part at all; the constructor default of sink_before_static_route is True; '
+              'WEBSOCKET over HTTP is 400. The model is tied to falcon on every run: generated WSGI and ASGI apps built through falcon.App, falcon.API, falcon.asgi.App and subclasses with every constructor option omitted / by keyword / positional, each request observed on the responder returned by '
               '_get_responder and through the full application call, compared with the compiled model, and judged by an independent oracle written from the statement.')
 LEVEL_NOTE = ('Trusted: Lean kernel + standard axioms; re and StaticRoute.match as table inputs; the router (C01) as an input; correspondence harness and oracle. '
               'Sortedness of Allow is carried by the correspondence only.')
